@@ -665,6 +665,25 @@ func c12Generate(seed int64, scale int) [][]*c12Case {
 				c.CancelKind, c.CancelAt, c.CancelDelay = 3, j, c12pick64(rng, 1, 10, 30)*c12ms
 			})
 		}
+		// F2d: ZERO back-off and an ended context: the zero-value configuration Retry{MaxRetries: n},
+		// the "examples" configuration Retry{MaxRetries, InitialInterval} (Multiplier 0: every wait after
+		// the first is 0) and MaxInterval 0; the handler cancels the message context in attempt j. Both
+		// select cases are ready, each iteration may go either way - but not 40+ times in a row.
+		for i := 0; i < 8; i++ {
+			cfg := c12Cfg{MR: c12pick(rng, 50, 64, 80), Mult: [2]int64{0, 1}, RF: c12rfs[rng.Intn(len(c12rfs))]}
+			switch i % 3 {
+			case 1:
+				cfg.Init = c12pick64(rng, 1, 3, 5) * c12ms
+			case 2:
+				cfg.Init, cfg.Mult = c12pick64(rng, 1, 3)*c12ms, [2]int64{2, 1}
+			}
+			c12notes(rng, &cfg)
+			j := rng.Intn(4)
+			add("cancel-in-attempt/zero-backoff", c12pickMode(rng), cfg, 1+rng.Intn(2), func(i int, c *c12Case) {
+				c.Script = c12script(rng, 3, true)
+				c.CancelKind, c.CancelAt = 1, j
+			})
+		}
 		// F3: the handler cancels the message context during attempt j; the next wait is long
 		for j := 0; j <= 7; j++ {
 			cfg := c12longAfter(rng, j)
